@@ -60,24 +60,32 @@ Authorised(a, creation) ==
 
 (* container part of a creation request:
    decodes   the container structure / bytes decode
-   sysAttr   "none" | "allowed" | "forbidden" | "meta"  (system attributes present)
+   attrs     the attribute LIST in wire order, every attribute abstracted to its kind:
+             "user" | "allowed" (permitted __NEOFS__ attribute) | "meta" (__NEOFS__METAINFO_CONSISTENCY,
+             at most once: keys are unique) | "forbidden" (any other __NEOFS__ attribute)
    metaOn    processor runs with chain metadata enabled
    policyOK  PlacementPolicy.Verify() accepts
    rules     "rep" | "ec" | "mix"   kinds of storage rules ; allowEC processor setting
    nnsOK     (named put) name/zone arguments equal the container's domain                      *)
-Cnrs == [decodes : BOOLEAN, sysAttr : {"none", "allowed", "forbidden", "meta"}, metaOn : BOOLEAN,
+AttrKinds == {"user", "allowed", "meta", "forbidden"}
+NMeta(l) == Cardinality({i \in 1..Len(l) : l[i] = "meta"})
+AttrLists == {l \in UNION {[1..n -> AttrKinds] : n \in 0..3} : NMeta(l) <= 1}
+BasicLists == {<<>>, <<"allowed">>, <<"forbidden">>, <<"meta">>}
+Cnrs == [decodes : BOOLEAN, attrs : BasicLists, metaOn : BOOLEAN,
          policyOK : BOOLEAN, rules : {"rep", "ec", "mix"}, allowEC : BOOLEAN, nnsOK : BOOLEAN]
-GoodCnr == [decodes |-> TRUE, sysAttr |-> "none", metaOn |-> FALSE, policyOK |-> TRUE, rules |-> "rep", allowEC |-> FALSE, nnsOK |-> TRUE]
+GoodCnr == [decodes |-> TRUE, attrs |-> <<>>, metaOn |-> FALSE, policyOK |-> TRUE, rules |-> "rep", allowEC |-> FALSE, nnsOK |-> TRUE]
 
 (* eACL part: decodes, cidOK (table names this container), extendable (basic ACL), sysTarget
    (a record targets the system role), recordsOK (other validateEACL rules)                    *)
 Eacls == [decodes : BOOLEAN, cidOK : BOOLEAN, extendable : BOOLEAN, sysTarget : BOOLEAN, recordsOK : BOOLEAN]
 GoodEacl == [decodes |-> TRUE, cidOK |-> TRUE, extendable |-> TRUE, sysTarget |-> FALSE, recordsOK |-> TRUE]
 
+\* an attribute is permitted: the verdict on a list must not depend on the order of its elements
+Permitted(k, metaOn) == k \in {"user", "allowed"} \/ (k = "meta" /\ metaOn)
+
 \* checkPutContainer without the signature step / with it
 CnrChecksBeforeAuth(c) ==
-  /\ c.sysAttr # "forbidden"
-  /\ (c.sysAttr = "meta" => c.metaOn)
+  /\ \A i \in 1..Len(c.attrs) : Permitted(c.attrs[i], c.metaOn)     \* one loop over the attributes, any order
   /\ (c.rules # "rep" => c.allowEC)
   /\ c.rules # "mix"
 CnrChecksAfterAuth(c) == c.policyOK /\ c.nnsOK
@@ -102,7 +110,7 @@ ApproveCode(in) ==
 ApproveProp(in, approve) ==
   approve =>
     /\ Authorised(in.a, in.op \in CreateOps)
-    /\ (in.op \in CreateOps => in.c.policyOK /\ in.c.sysAttr # "forbidden")
+    /\ (in.op \in CreateOps => in.c.policyOK /\ \A i \in 1..Len(in.c.attrs) : Permitted(in.c.attrs[i], in.c.metaOn))
     /\ (in.op = "putEACL" => in.e.extendable /\ ~in.e.sysTarget)
     /\ (in.op = "createV2" /\ in.withEACL => in.e.extendable /\ ~in.e.sysTarget /\ Authorised(in.ea, FALSE))
 
@@ -113,8 +121,10 @@ KF_H13(in) ==
 
 -----------------------------------------------------------------------------
 (* exhaustive model: one state per abstract input (irrelevant parts pinned to a canonical value) *)
-NearGoodCnr == {GoodCnr} \cup {[GoodCnr EXCEPT !.sysAttr = "forbidden"], [GoodCnr EXCEPT !.policyOK = FALSE],
+NearGoodCnr == {GoodCnr} \cup {[GoodCnr EXCEPT !.attrs = <<"forbidden">>], [GoodCnr EXCEPT !.policyOK = FALSE],
                                [GoodCnr EXCEPT !.rules = "ec"], [GoodCnr EXCEPT !.decodes = FALSE]}
+\* every attribute list (order matters) under both processor configurations, everything else in order
+CnrsAttr == {[GoodCnr EXCEPT !.attrs = l, !.metaOn = m] : l \in AttrLists, m \in BOOLEAN}
 Base == [op |-> "remove", a |-> GoodAuth, c |-> GoodCnr, withEACL |-> FALSE, e |-> GoodEacl, ea |-> GoodAuth,
          exists |-> TRUE, idOK |-> TRUE, expired |-> FALSE]
 \* authorisations with at most one fact wrong
@@ -127,6 +137,7 @@ vars == <<in, out>>
 \* (disjuncts are enumerated lazily; one big set of records is slow to normalise in TLC)
 InitIn ==
   \/ \E a \in Auths, c \in Cnrs : in = [Base EXCEPT !.op = "create", !.a = a, !.c = c]
+  \/ \E o \in CreateOps, a \in NearAuths, c \in CnrsAttr : in = [Base EXCEPT !.op = o, !.a = a, !.c = c]
   \/ \E a \in Auths, c \in {x \in Cnrs : x.nnsOK} : in = [Base EXCEPT !.op = "createV2", !.a = a, !.c = c]
   \/ \E a \in {GoodAuth} \cup V2Live, c \in NearGoodCnr, e \in Eacls, ea \in (IF Full THEN Auths ELSE NearAuths) :
         in = [Base EXCEPT !.op = "createV2", !.a = a, !.c = c, !.withEACL = TRUE, !.e = e, !.ea = ea]
